@@ -26,6 +26,11 @@ TAIL_PROBES = [
     ("(define (f x) (let ((x 10) (y x)) (+ x y)))\n(f 1)", "OK I 11"),
     ("(define (g x) ((lambda (x y) (+ x y)) 10 x))\n(g 1)", "OK I 11"),
     ("(define (h a) ((lambda (a k) (k)) 5 (lambda () a)))\n(h 1)", "OK I 1"),
+    # loops through a procedure PARAMETER: the same parameter name designates a different procedure in every frame
+    ("(define (ping other n) (if (= n 0) 'ping (other ping (- n 1))))\n(define (pong other n) (if (= n 0) 'pong (other pong (- n 1))))\n(vector (ping pong 4) (ping pong 5) (ping pong 20000))",
+     "OK VM 3 Y 70696e67 Y 706f6e67 Y 70696e67"),
+    ("(define (a-state next after n acc) (if (= n 0) acc (next after next (- n 1) (+ acc 1))))\n(define (b-state next after n acc) (if (= n 0) acc (next after next (- n 1) (+ acc 10))))\n(vector (a-state b-state a-state 4 0) (a-state b-state a-state 20000 0))",
+     "OK VM 2 I 22 I 110000"),
     # parameterless procedures (begin expands to a thunk call), tail sub-forms of the derived forms
     # (20000 iterations: a nesting depth of 1000 already overflows the native stack)
     ("(define n 20000)\n(define (t) (if (= n 0) 'done (begin (set! n (- n 1)) (t))))\n(t)", _DONE),
